@@ -212,10 +212,24 @@ OutViol(ev, o, ln) ==
                              \o (IF \A i \in 1..nb : RdTsOK(rd.blocks[i], o.bps) THEN <<>>
                                  ELSE <<[l |-> ln, prop |-> "C17,C01", what |-> "library reader returns a timestamp that is not normalised"]>>)))
 
+(* what can be said about a closed output without the model (still checked when the model lost track of the state) *)
+FormViol(ev, ln) ==
+    LET bytes == Expand(ev.bytes) IN
+    IF ~ev.raw_ok THEN <<[l |-> ln, prop |-> "C14,C02", what |-> "closed compressed output is not one complete stream"]>>
+    ELSE IF Len(bytes) = 0 THEN <<>>
+    ELSE LET P == Parse(bytes) IN
+         IF ~P.ok THEN <<[l |-> ln, prop |-> "C02,C13,C01", what |-> "closed output is not exactly one well-formed CBOR data item",
+                          size |-> Len(bytes)]>>
+         ELSE IF FileErrs(P.n) # {}
+         THEN <<[l |-> ln, prop |-> "C02,C13,C01", what |-> "closed output violates the RFC 8618 schema", errs |-> FileErrs(P.n)]>>
+         ELSE IF "rd" \in DOMAIN ev /\ ev.rd.fin # "eof"
+         THEN <<[l |-> ln, prop |-> "C01,C02", what |-> "the library's own reader fails on the output: " \o ev.rd.fin]>>
+         ELSE <<>>
+
 TOut ==
     /\ l <= N /\ Tr[l].e = "OUT"
     /\ l' = l + 1 /\ UNCHANGED <<execs, lost>>
-    /\ IF lost THEN UNCHANGED <<ex, viol>>
+    /\ IF lost THEN viol' = Notes(FormViol(Tr[l], l)) /\ UNCHANGED ex
        ELSE LET ev  == Tr[l]
                 ex1 == IF ev.why = "destroy" THEN StepDestroy(ex) ELSE ex
                 o   == ex1.closed[Len(ex1.closed)]
